@@ -27,3 +27,29 @@ func VerifTokens(s *SearchSet) (texts []string, offsets []int) {
 	}
 	return
 }
+
+// VerifHashWindows returns every (start, end, checksum) recorded in s.Hashes,
+// ordered by start (the source side of targetMatchedRanges).
+func VerifHashWindows(s *SearchSet) (out [][3]int) {
+	for cs, trs := range s.Hashes {
+		for _, tr := range trs {
+			out = append(out, [3]int{tr.Start, tr.End, int(cs)})
+		}
+	}
+	sort.Slice(out, func(i, j int) bool {
+		if out[i][0] != out[j][0] {
+			return out[i][0] < out[j][0]
+		}
+		return out[i][1] < out[j][1]
+	})
+	return
+}
+
+// VerifNodeWindows returns (start, end, checksum) of s.nodes in order (the
+// target side of targetMatchedRanges).
+func VerifNodeWindows(s *SearchSet) (out [][3]int) {
+	for _, n := range s.nodes {
+		out = append(out, [3]int{n.tokens.Start, n.tokens.End, int(n.checksum)})
+	}
+	return
+}
